@@ -257,6 +257,7 @@ func tsWire(c *chk.Ctx, set *plug.Set, family string, suite *wire.Suite) {
 		c.Broken("%v", err)
 	}
 	defer os.RemoveAll(dir)
+	chk.AtExit(func() { _ = os.RemoveAll(dir) })
 	mods := map[string]string{} // go package dir ("gen/w0") -> module path
 	for _, f := range res.Files {
 		p := filepath.Join(dir, f.Name)
